@@ -68,6 +68,19 @@ def natural_loops(f):
     return [(h, v["body"], v["latches"]) for h, v in sorted(loops.items())]
 
 
+_cf_cache = {}
+
+
+def _paths_of(e):
+    out = set()
+    for n in X.walk(e):
+        if n.get("k") in ("ref", "member"):
+            p = X.path(n)
+            if p:
+                out.add(p)
+    return out
+
+
 def _const_pos(e):
     v = X.const_val(e)
     return v is not None and v > 0
@@ -175,47 +188,109 @@ def classify(f, head, body, latches):
             for n in X.walk(c, local=True):
                 for d, p in progress_of(n):
                     may.setdefault(p, set()).add(d)
-    # must-dataflow inside the body, starting after the head's own statements
-    IN = {head: frozenset()}
+    # path-sensitive must-progress: sets of (progress facts, comparison facts) per block; an edge whose condition is
+    # contradicted by the comparison facts of a state is not taken by that state
+    from .condflow import CondFlow, implied
+    from .norm import cmp_norm
+    cf = _cf_cache.get(id(f))
+    if cf is None:
+        cf = _cf_cache[id(f)] = CondFlow(f)
 
-    def out_of(bid):
-        facts = set(IN[bid])
+    def gens(nodes):
+        out = set()
+        for n in nodes:
+            for d, p in progress_of(n):
+                if d in ("up", "down", "shrink"):
+                    out.add((d, p))
+        return out
+
+    ST = {head: {(frozenset(), frozenset())}}
+    arrived = set()
+    work = [head]
+    steps = 0
+    overflow = False
+    while work:
+        bid = work.pop()
+        steps += 1
+        if steps > 4000:
+            overflow = True
+            break
         b = blocks[bid]
-        for s in b["stmts"]:
-            for n in X.stmt_nodes(s, local=True):
-                for d, p in progress_of(n):
-                    if d in ("up", "down", "shrink"):
-                        facts.add((d, p))
-        c = b["term"].get("econd") if b["term"].get("econd") is not None else b["term"].get("cond")
-        if c is not None:
-            for n in X.walk(c, local=True):
-                for d, p in progress_of(n):
-                    if d in ("up", "down", "shrink"):
-                        facts.add((d, p))
-        return frozenset(facts)
-    changed = True
-    it = 0
-    while changed and it < 100:
-        changed = False
-        it += 1
-        for bid in sorted(body, reverse=True):
-            if bid == head:
-                continue
-            acc = None
-            for p in body:
-                if p in IN and any(e["to"] == bid and not e.get("pruned") for e in blocks[p]["succ"]):
-                    o = out_of(p)
-                    acc = o if acc is None else (acc & o)
-            if acc is not None and IN.get(bid) != acc:
-                IN[bid] = acc
-                changed = True
-    must = None
-    for l in latches:
-        if l not in IN:
-            continue
-        o = out_of(l)
-        must = o if must is None else (must & o)
-    must = must or frozenset()
+        for (prog, cfs) in list(ST.get(bid, ())):
+            prog2 = set(prog)
+            for s in b["stmts"]:
+                prog2 |= gens(X.stmt_nodes(s, local=True))
+            cfs2 = cf._after(bid, len(b["stmts"]), cfs)
+            c = b["term"].get("econd") if b["term"].get("econd") is not None else b["term"].get("cond")
+            if c is not None:
+                from .mustflow import kills as _kills
+                cn = list(X.walk(c, local=True))
+                prog2 |= gens(cn)
+                cfs2 = cf._kill(cfs2, _kills(cn))
+            for e in b["succ"]:
+                if e.get("pruned"):
+                    continue
+                cfs3 = cfs2
+                if c is not None and e.get("when") in ("true", "false"):
+                    pos = cmp_norm(c, e["when"] == "true")
+                    neg = cmp_norm(c, e["when"] != "true")
+                    if neg is not None and implied(cfs2, neg):
+                        continue                      # this state cannot take the edge
+                    if pos is not None:
+                        cf.deps[pos] = cf.deps.get(pos) or _paths_of(c)
+                        cfs3 = frozenset(set(cfs2) | {pos})
+                st2 = (frozenset(prog2), cfs3)
+                if e["to"] == head:
+                    arrived.add(st2)
+                    continue
+                if e["to"] not in body:
+                    continue
+                cur = ST.setdefault(e["to"], set())
+                if st2 not in cur:
+                    if len(cur) > 60:
+                        overflow = True
+                        continue
+                    cur.add(st2)
+                    work.append(e["to"])
+    if overflow or not arrived:
+        # too many path states: fall back to the path-insensitive intersection
+        IN = {head: frozenset()}
+
+        def out_of(bid):
+            facts = set(IN[bid])
+            b = blocks[bid]
+            for s in b["stmts"]:
+                facts |= gens(X.stmt_nodes(s, local=True))
+            c = b["term"].get("econd") if b["term"].get("econd") is not None else b["term"].get("cond")
+            if c is not None:
+                facts |= gens(X.walk(c, local=True))
+            return frozenset(facts)
+        changed, it = True, 0
+        while changed and it < 100:
+            changed = False
+            it += 1
+            for bid in sorted(body, reverse=True):
+                if bid == head:
+                    continue
+                acc = None
+                for p in body:
+                    if p in IN and any(e["to"] == bid and not e.get("pruned") for e in blocks[p]["succ"]):
+                        o = out_of(p)
+                        acc = o if acc is None else (acc & o)
+                if acc is not None and IN.get(bid) != acc:
+                    IN[bid] = acc
+                    changed = True
+        must = None
+        for l in latches:
+            if l in IN:
+                o = out_of(l)
+                must = o if must is None else (must & o)
+        must = must or frozenset()
+    else:
+        must = None
+        for (prog, cfs) in arrived:
+            must = prog if must is None else (must & prog)
+        must = must or frozenset()
     # ---- exit tests: conditions of blocks in the loop with a successor outside it
     tests = []
     for bid in body:
